@@ -161,6 +161,8 @@ def run_case(c, F, femio):
             rows = [e[0] for e in spec['entries']]
             cols = [e[1] for e in spec['entries']]
             vals = [fl(e[2]) for e in spec['entries']]
+            # what scipy itself uses for this shape: int32 unless a dimension needs more
+            idt = np.int32 if max(shape) < 2 ** 31 - 1 else np.int64
             if spec['format'] in ('csr', 'csr_unsorted'):
                 # CSR built by hand so that stored zeros stay stored; 'csr_unsorted'
                 # keeps the (shuffled) entry order inside each row: legitimate,
@@ -169,24 +171,28 @@ def run_case(c, F, femio):
                     order = sorted(range(len(rows)), key=lambda t: (rows[t], cols[t]))
                 else:
                     order = sorted(range(len(rows)), key=lambda t: rows[t])
-                indptr = [0] * (shape[0] + 1)
+                counts = np.zeros(shape[0] + 1, dtype=np.int64)
                 for t in order:
-                    indptr[rows[t] + 1] += 1
-                for i in range(shape[0]):
-                    indptr[i + 1] += indptr[i]
+                    counts[rows[t] + 1] += 1
+                indptr = np.cumsum(counts)
                 m = sp.csr_matrix((np.array([vals[t] for t in order], dtype=float),
-                                   np.array([cols[t] for t in order], dtype=np.int32),
-                                   np.array(indptr, dtype=np.int32)), shape=shape)
+                                   np.array([cols[t] for t in order], dtype=idt),
+                                   indptr.astype(idt)), shape=shape)
             else:
-                m = sp.coo_matrix((np.array(vals, dtype=float), (np.array(rows, dtype=np.int32),
-                                                                  np.array(cols, dtype=np.int32))),
+                m = sp.coo_matrix((np.array(vals, dtype=float), (np.array(rows, dtype=idt),
+                                                                  np.array(cols, dtype=idt))),
                                   shape=shape)
             mats.append(m)
 
         def snap(m):
             # the VALUE of the caller's matrix (scipy may canonicalise the storage
             # of a non-canonical input in place; that is not a change of value)
-            return np.asarray(m.toarray(), dtype=float).tobytes()
+            # (canonical triplets, not toarray(): shapes may have > 2^31 positions)
+            cc = m.tocoo(copy=True)
+            cc.sum_duplicates()
+            o_ = np.lexsort((cc.col, cc.row))
+            return (cc.row[o_].astype(np.int64).tobytes(), cc.col[o_].astype(np.int64).tobytes(),
+                    cc.data[o_].astype(float).tobytes())
         s0 = [snap(m) for m in mats]
         out = F.align_nnz(mats)
         r['inputs_unchanged'] = [snap(m) for m in mats] == s0
@@ -194,10 +200,11 @@ def run_case(c, F, femio):
         for o in out:
             o = o.tocsr() if o.format != 'csr' else o
             ent = []
-            for i in range(shape[0]):
-                for p in range(o.indptr[i], o.indptr[i + 1]):
-                    ent.append([int(i), int(o.indices[p]), ex(o.data[p])])
+            row_of = np.repeat(np.arange(shape[0], dtype=np.int64), np.diff(o.indptr))
+            for p in range(len(o.data)):            # storage order of the returned CSR
+                ent.append([int(row_of[p]), int(o.indices[p]), ex(o.data[p])])
             res.append({'format': o.format, 'shape': list(o.shape), 'entries': ent,
+                        'index_dtype': str(o.indices.dtype),
                         'same_structure_as_first': bool(
                             np.array_equal(o.indices, out[0].indices) and
                             np.array_equal(o.indptr, out[0].indptr))})
@@ -208,6 +215,8 @@ def run_case(c, F, femio):
 
 
 def main():
+    import resource
+    resource.setrlimit(resource.RLIMIT_AS, (12 * 2 ** 30, 12 * 2 ** 30))   # never exhaust the machine
     spec = json.loads(open(sys.argv[1]).read())
     real_stdout = sys.stdout
     sys.stdout = io.StringIO()          # femio prints a lot
